@@ -64,7 +64,7 @@ func (ctn Writer) ToCborBase64() ([]byte, error) {
 
 // ToCborBase64Writer is the same as ToCborBase64, but with an io.Writer.
 func (ctn Writer) ToCborBase64Writer(w io.Writer) error {
-	w2 := base64.NewEncoder(base64.StdEncoding, w)
+	w2 := base64.NewEncoder(base64.StdEncoding, fullWriter{w: w})
 	if err := ctn.ToCborWriter(w2); err != nil {
 		_ = w2.Close()
 		return err
@@ -85,7 +85,7 @@ func (ctn Writer) ToCar() ([]byte, error) {
 
 // ToCarWriter is the same as ToCar, but with an io.Writer.
 func (ctn Writer) ToCarWriter(w io.Writer) error {
-	return writeCar(w, nil, func(yield func(carBlock, error) bool) {
+	return writeCar(fullWriter{w: w}, nil, func(yield func(carBlock, error) bool) {
 		for c, data := range ctn {
 			if !yield(carBlock{c: c, data: data}, nil) {
 				return
@@ -106,11 +106,26 @@ func (ctn Writer) ToCarBase64() ([]byte, error) {
 
 // ToCarBase64Writer is the same as ToCarBase64, but with an io.Writer.
 func (ctn Writer) ToCarBase64Writer(w io.Writer) error {
-	w2 := base64.NewEncoder(base64.StdEncoding, w)
+	w2 := base64.NewEncoder(base64.StdEncoding, fullWriter{w: w})
 	if err := ctn.ToCarWriter(w2); err != nil {
 		_ = w2.Close()
 		return err
 	}
 	// Close flushes the last, partial base64 quantum: its error must be reported
 	return w2.Close()
+}
+
+// fullWriter turns a short write that comes without an error into
+// io.ErrShortWrite: neither the CAR framing nor the base64 encoder look at the
+// byte count a Write returns, so an incomplete output would go unnoticed.
+type fullWriter struct {
+	w io.Writer
+}
+
+func (f fullWriter) Write(p []byte) (int, error) {
+	n, err := f.w.Write(p)
+	if err == nil && n < len(p) {
+		err = io.ErrShortWrite
+	}
+	return n, err
 }
